@@ -154,7 +154,8 @@
             assert!(consumed + remaining == 1_000_000, "{name}: levels do not add up");
             let cost = consumed;
             assert!(cost > 0);
-            let mut budgets: Vec<u64> = (0..=cost + 3).collect();
+            let thorough = std::env::var("VERIF_TIER").map_or(false, |t| t == "thorough");
+            let mut budgets: Vec<u64> = (0..=cost + (if thorough { 40 } else { 3 })).collect();
             budgets.extend([i64::MAX as u64, 1u64 << 63, u64::MAX - 1, u64::MAX]);
             for &b in &budgets {
                 for _rep in 0..3 {
